@@ -154,6 +154,29 @@ def run_calc(specdir, drv, tdir, seed, num, workers=4, timeout=900):
     return tpath, len(behs)
 
 
+def run_classes(specdir, drv, tdir, cfg, workers=4, timeout=1500):
+    """Run kind (B): TLC enumerates the full-size class model exhaustively; every state is one call with its expected
+    result, replayed into the real library.  Returns (trace path, number of cases, TLC state count)."""
+    rc, out = run_tlc(specdir, "Classes.tla", cfg, workers=workers, heap="4g", timeout=timeout)
+    if rc != 0 or "Model checking completed. No error has been found." not in out:
+        raise Infra("the class model %s failed (a fault of the specification):\n%s" % (cfg, out[-2500:]))
+    behs = sorted(set(m.group(1) for m in re.finditer(r'<<"BEHAVIOUR", "(\[.*?\])">>', out)))
+    st = STATES_RE.search(out)
+    nstates = int(st.group(2)) if st else 0
+    if not behs or len(behs) != nstates:
+        raise Infra("class model %s: %d cases printed for %d states" % (cfg, len(behs), nstates))
+    bpath = os.path.join(tdir, "classes.jsonl")
+    with open(bpath, "w") as f:
+        for b in behs:
+            f.write(b.replace('\\"', '"') + "\n")
+    tpath = os.path.join(tdir, "shard_classes.ndjson")
+    p = subprocess.run([drv, "replaybeh", bpath, tpath], capture_output=True, text=True, env=GOENV, timeout=900)
+    if p.returncode != 0:
+        raise Infra("driver replaybeh (classes) failed:\n" + p.stdout[-2000:] + p.stderr[-2000:])
+    os.remove(bpath)
+    return tpath, len(behs), nstates
+
+
 def load_kf():
     if not os.path.exists(KF_FILE):
         return {"known": [], "fixed": []}
@@ -239,6 +262,9 @@ def check_property(pid, tier, seed):
         nbeh = 0
         if tcfg.get("calc"):
             _, nbeh = run_calc(specdir, drv, tdir, seed, tcfg["calc"])
+        ncases = 0
+        if tcfg.get("classes"):
+            _, ncases, _ = run_classes(specdir, drv, tdir, tcfg["classes"])
         shard_files = sorted(os.path.join(tdir, f) for f in os.listdir(tdir) if f.endswith(".ndjson"))
         grids = {}
         if os.path.exists(os.path.join(tdir, "grids.json")):
@@ -360,6 +386,7 @@ def check_property(pid, tier, seed):
                 "states": m_states + t_states, "transitions": m_trans + t_trans,
                 "traces_validated_against_impl": len(results) + nbeh,
                 "tlc_generated_behaviours_replayed": nbeh,
+                "tlc_enumerated_class_cases_replayed": ncases,
                 "evaluations": steps,
                 "distinct_nontrivial": len(nontrivial_keys),
                 "distinct_inputs": len(all_keys),
